@@ -2,7 +2,11 @@
 (***************************************************************************)
 (* Record validation for C16: Split, and a Scanner fed through several     *)
 (* reader fragmentations, against the reference tokenizer Lex; Rest()      *)
-(* after k tokens must return exactly the unconsumed bytes.                *)
+(* after k tokens must return exactly the unconsumed bytes.  The harness   *)
+(* obtains its scanners in several lifecycle states (fresh; used on other  *)
+(* input -- mid-token, at end of input, after Rest, built on a nil reader   *)
+(* -- and then Reset): Reset(r) is specified as "becomes NewScanner(r)",   *)
+(* so every observation below is the same function of e.s alone.           *)
 (***************************************************************************)
 EXTENDS ShellLex, TraceBase
 
